@@ -173,10 +173,11 @@ func TestC06(t *testing.T) {
 // C07 (simulated part): replace debounces to the newest job; the delay gates the start.
 func TestC07Sim(t *testing.T) {
 	cfg := &Cfg{Prop: "C07", MaxPipelines: 2, MaxTasks: 2, DelayPct: 75, ReplacePct: 70,
-		LimitChoices: []int{-1, 1, 1, 2}, Weights: map[string]int{"schedule": 45, "cancel": 8, "finish": 22, "timer": 20, "hold": 1, "release": 2},
+		LimitChoices: []int{-1, 1, 1, 2, 3}, Weights: map[string]int{"schedule": 45, "cancel": 8, "finish": 22, "timer": 20, "hold": 1, "release": 2, "reload": 4},
+		ReloadKinds: []string{"strategy", "strategy", "limit"},
 		Armed: map[string]bool{"C07": true}}
 	runHistories(t, histOpts{cfg: cfg, failPct: 10,
-		rule:       "histories over pipelines with start_delay (timer expiry delivered by the harness through StartDelayedJob, also late and out of order) and the replace strategy; oracle: no start before the job's timer, a replaced job never starts, only the most recently queued job is replaced, a job whose delay expired starts when a slot is free (quiescent obligation), after the drain the newest accepted job ran unless canceled; non-trivial = a burst of >=3 requests inside one delay window under replace, or a timer that expired while the pipeline was busy; distinct by action trace",
+		rule:       "histories over pipelines with start_delay (timer expiry delivered by the harness through StartDelayedJob, also late and out of order) and the replace strategy; oracle: no start before the job's timer, a replaced job never starts, only the most recently queued job is replaced, a job whose delay expired starts when a slot is free (quiescent obligation), after the drain the newest accepted job ran unless canceled; reloads only switch the strategy or the queue limit, so that replace also meets queues of several waiting jobs; non-trivial = a burst of >=3 requests inside one delay window under replace, or a timer that expired while the pipeline was busy; distinct by action trace",
 		nontrivial: func(c map[string]int) bool { return c["replaced"] >= 2 || c["timer:while-busy"] > 0 }})
 }
 
